@@ -45,20 +45,40 @@ def mutants(base):
 def shard(arg):
     cc, seed, tier = arg
     import random
-    from ..lib import IBAN
+    from ..lib import IBAN, SchwiftyException
+    from ..oracles.core import canonical_digits
     rng = random.Random(f"{seed}:C03:{cc}")
     rec = Rec()
     g = gen()
     n = 4 if tier == "quick" else 36
     variants = ["letters", "digits", "max"] + ["random"] * n
     seen = set()
+    o = oracle()
+    n_bases = 0
+    # countries whose BBANs have the same length (a mutant's BBAN text may be a valid BBAN there)
+    siblings = [c for c in o.countries() if c != cc and o.bban_length(c) == o.bban_length(cc)]
     for v in variants:
         base = g.iban(cc, rng, v)
         if base in seen:
             continue
         seen.add(base)
-        IBAN(base)  # the base itself must be valid in the library, otherwise C01/C02 report it; here it is a precondition
+        try:
+            IBAN(base)  # the base itself must be valid in the library; if not, C01/C02 report it - here it is a precondition
+        except SchwiftyException:
+            rec.excluded["base rejected by the library (C01/C02 territory)"] += 1
+            continue
+        n_bases += 1
         for kind, pos, m in mutants(base):
+            # History warm-up: the verdict may not depend on what was parsed before (C15), so a *valid* IBAN of another
+            # country with the same check digits and the mutant's BBAN text is parsed first whenever one exists; a cache
+            # keyed on too little (BBAN text without the country) then shows up as an undetected typing error.
+            for other in siblings:
+                if canonical_digits(other, m[4:]) == m[2:4] and o.accept_norm(other + m[2:]):
+                    try:
+                        IBAN(other + m[2:])
+                        rec.classes["warmup-sibling-valid"] += 1
+                    except SchwiftyException:
+                        pass
             check_mutant(rec, base, m, kind, pos)
             rec.evals += 1
             rec.classes[f"{kind}-{'letter' if m[pos].isalpha() else 'digit'}"] += 1
@@ -68,6 +88,8 @@ def shard(arg):
             rec.sample("replace", {"base": base, "mutant": ms[0][2]})
             rec.sample("swap", {"base": base, "mutant": ms[-1][2]})
     rec.exhaustive.append("every same-kind replacement at every position >= 2 and every adjacent same-kind transposition, per base")
+    if n_bases == 0:
+        rec.notes.append(f"{cc}: every constructed valid IBAN was rejected by the library (C01/C02 report that); no mutants tested")
     return rec
 
 
